@@ -39,8 +39,10 @@ nontrivial_rule("C16", "Non-trivial: Ramberg-Osgood clauses - at least one argum
 assumptions("C16", [
     "E in [1e3,1e6], K/E in [1e-3,5e-2], n in [0.02,0.95] (two thirds of the cases in [0.02,0.6]); stresses up to K*0.3^n (plastic strain 0.3), strains up to 0.3; "
     "nu in (-0.999, 0.4999); engineering strain in [-0.9, 3]",
-    "inputs are Python floats, numpy scalars, 1-D and 2-D float arrays ('scalar or array' of the quantifier); "
-    "Python lists are used only where the implementation converts with numpy.asarray (Hooke); "
+    "inputs are Python floats and ints, numpy float64/int64 scalars, 1-D and 2-D float arrays and 1-D integer arrays "
+    "('scalar or array' of the quantifier; whole-number stresses are natural inputs and must not change the result); "
+    "Python lists (of floats / of ints) are used only where the implementation converts them itself (Hooke; RambergOsgood.strain, "
+    "plastic_strain, stress, tangential_compliance/modulus, lower_hysteresis); "
     "true_strain/true_stress/delta_strain/delta_stress raise TypeError on a plain list - outside the quantifier, not asserted",
     "the inverse is asserted to the accuracy of the solver's own (rtol, tol) parameters, not to machine precision",
     "the library has no engineering-from-true functions; the inverse used is the textbook one (exp(t)-1, sigma/(1+e))",
@@ -103,17 +105,43 @@ def slow_newton(E, K, n, strains, rtol, tol, array_mode):
 
 
 # ----------------------------------------------------------------------------- containers
-def _apply(f, vals, kind, **kw):
+# Integer typed containers hold integer *valued* arguments; where a value is not integral (a strain, a result fed
+# back into the inverse) the float counterpart is used instead.  Lists only where the code converts them itself.
+FLOAT_OF = {"int": "scalar", "npint": "np0", "intarr": "arr1", "intlist": "list"}
+INT_KINDS = ["int", "npint", "intarr", "intlist"]
+SCALAR_CONV = {"scalar": float, "np0": np.float64, "int": int, "npint": np.int64}
+
+
+def _eff_kind(vals, kind, lists=True):
+    if kind in FLOAT_OF and not all(float(v).is_integer() for v in vals):
+        kind = FLOAT_OF[kind]
+    if not lists:
+        kind = {"list": "arr1", "intlist": "intarr"}.get(kind, kind)
+    return kind
+
+
+def _apply(f, vals, kind, lists=True, **kw):
     """Call f on the values in the requested container; returns a list of floats of the same length."""
-    if kind in ("scalar", "np0"):
+    kind = _eff_kind(vals, kind, lists)
+    name = getattr(f, "__name__", "f")
+    if kind in SCALAR_CONV:
         out = []
         for v in vals:
-            r = f(float(v) if kind == "scalar" else np.float64(v), **kw)
+            r = f(SCALAR_CONV[kind](v), **kw)
             if np.ndim(r) != 0:
-                raise Violation("%s(scalar) returned shape %r" % (getattr(f, "__name__", "f"), np.shape(r)), bucket="shape:scalar")
+                raise Violation("%s(%s scalar) returned shape %r" % (name, kind, np.shape(r)), bucket="shape:scalar")
             out.append(float(r))
         return out
-    a = np.array(vals, dtype=float)
+    if kind in ("list", "intlist"):
+        arg = [int(v) if kind == "intlist" else float(v) for v in vals]
+        keep = list(arg)
+        r = np.asarray(f(arg, **kw))
+        if r.shape != (len(vals),):
+            raise Violation("%s(list of %d) returned shape %r" % (name, len(vals), r.shape), bucket="shape:list")
+        if arg != keep:
+            raise Violation("%s modified its argument" % name, bucket="mutation")
+        return [float(x) for x in r.ravel()]
+    a = np.array([int(v) for v in vals], dtype=np.int64) if kind == "intarr" else np.array(vals, dtype=float)
     if kind == "arr2":
         a = a.reshape(-1, 2) if len(vals) % 2 == 0 else a.reshape(1, -1)
     keep = a.copy()
@@ -165,15 +193,22 @@ def _strain_value(draw):
 
 
 KINDS = ["scalar", "np0", "arr1", "arr1", "arr2"]
+RO_KINDS = KINDS + ["list"] + INT_KINDS
 
 
 @st.composite
 def _ro_cases(draw, tier, stress=True, strain=False, extra=None):
     E, K, n = draw(_params())
     m = 4 if tier == "quick" else 10
-    case = {"E": E, "K": K, "n": n, "kind": draw(st.sampled_from(KINDS))}
+    kind = draw(st.sampled_from(RO_KINDS))
+    if kind in INT_KINDS:
+        # whole-number stresses (MPa) need a material whose stresses are not all below 1: E, K from the textbook sets
+        E, K, _ = draw(st.sampled_from(TEXTBOOK))
+    case = {"E": E, "K": K, "n": n, "kind": kind}
     if stress:
         case["stress"] = draw(st.lists(_stress_value(K, n), min_size=1, max_size=m))
+        if kind in INT_KINDS:
+            case["stress"] = [int(v) for v in case["stress"]]       # truncation keeps |s| inside the stated range
     if strain:
         case["strain"] = draw(st.lists(_strain_value(), min_size=1, max_size=m))
         case["tight"] = draw(st.booleans())
@@ -211,7 +246,7 @@ def ro_curve(case, ctx):
     s = case["stress"]
     _mark_nontrivial_stress(ctx, E, K, n, s)
     got = _apply(ro.strain, s, case["kind"])
-    el = _apply(ro.elastic_strain, s, case["kind"])
+    el = _apply(ro.elastic_strain, s, case["kind"], lists=False)     # plain division: no list input
     pl = _apply(ro.plastic_strain, s, case["kind"])
     neg = _apply(ro.strain, [-x for x in s], case["kind"])
     one = [float(ro.strain(float(x))) for x in s]
@@ -226,7 +261,7 @@ def ro_curve(case, ctx):
         if not _close(neg[i], -got[i], 4 * EPS * abs(got[i])):
             raise Violation("strain(-s) = %r, -strain(s) = %r at s = %r: not odd" % (neg[i], -got[i], x), bucket="curve:odd")
         if not _close(one[i], got[i], 8 * EPS * abs(got[i])):
-            raise Violation("strain of element %d in a %s (%r) differs from the scalar call (%r)" % (i, case["kind"], got[i], one[i]), bucket="curve:container")
+            raise Violation("strain of element %d in a %s (%r) differs from the float scalar call (%r)" % (i, case["kind"], got[i], one[i]), bucket="curve:container")
         if x == 0 and got[i] != 0:
             raise Violation("strain(0) = %r" % got[i], bucket="curve:zero")
     order = sorted(range(len(s)), key=lambda i: s[i])
@@ -246,15 +281,15 @@ def _solver_kw(case):
     return {}, 1e-5, 1e-6
 
 
-def _stress_call(ro_f, strains, kind, kw, E, K, n, rtol, tol, ctx, scale=1.0):
+def _stress_call(ro_f, strains, kind, kw, E, K, n, rtol, tol, ctx, scale=1.0, lists=True):
     """Call a Newton based inverse (stress / delta_stress). Returns None if the case belongs to the known class F16_a.
     ``scale``: delta_stress solves for strain/2."""
-    arr = kind in ("arr1", "arr2") and len(strains) > 1
+    arr = _eff_kind(strains, kind, lists) not in SCALAR_CONV and len(strains) > 1
     slow = slow_newton(E, K, n, [e * scale for e in strains], rtol, tol, arr)
     if slow:
         ctx.label("slow_newton")
     try:
-        return _apply(ro_f, strains, kind, **kw), slow
+        return _apply(ro_f, strains, kind, lists=lists, **kw), slow
     except RuntimeError as e:
         if "converge" not in str(e):
             raise
@@ -345,6 +380,8 @@ def ro_tangent(case, ctx):
 def _masing_extra(draw, case):
     K, n = case["K"], case["n"]
     case["max_stress"] = abs(draw(_stress_value(K, n)))
+    if case["kind"] in INT_KINDS:
+        case["max_stress"] = int(case["max_stress"])
     case["frac"] = draw(st.lists(st.one_of(st.floats(-1.0, 1.0), st.sampled_from([1.0, -1.0, 0.0])), min_size=1, max_size=4))
     case["above"] = draw(st.one_of(st.none(), st.floats(1e-6, 1.0)))
 
@@ -356,24 +393,24 @@ def ro_masing(case, ctx):
     ro, E, K, n = _ro(case, ctx)
     kw, rtol, tol = {}, 1e-5, 1e-6
     kind = case["kind"]
-    ds = [2.0 * x for x in case["stress"]]
+    ds = [2 * x for x in case["stress"]]          # whole-number spans stay whole numbers
     de = [2.0 * x for x in case["strain"]]
     _mark_nontrivial_stress(ctx, E, K, n, case["stress"] + [case["max_stress"]])
-    dstrain = _apply(ro.delta_strain, ds, kind)
+    dstrain = _apply(ro.delta_strain, ds, kind, lists=False)       # delta_* divide their argument: no list input
     for i, d in enumerate(ds):
         want = 2.0 * ref_strain(E, K, n, d / 2.0)
         if not _close(dstrain[i], want, RT_CLOSED * abs(want)):
             raise Violation("delta_strain(%r) = %r, doubled curve gives %r (E=%r K=%r n=%r)" % (d, dstrain[i], want, E, K, n), bucket="masing:delta_strain")
-    back, slow = _stress_call(ro.delta_stress, dstrain, kind, kw, E, K, n, rtol, tol, ctx, scale=0.5)
+    back, slow = _stress_call(ro.delta_stress, dstrain, kind, kw, E, K, n, rtol, tol, ctx, scale=0.5, lists=False)
     if back is not None:
         for i, d in enumerate(ds):
             if not _close(back[i], d, 4 * (tol + rtol * abs(d) / 2)):
                 if slow and ctx.known("F16_a"):
                     break
                 raise Violation("delta_stress(delta_strain(%r)) = %r (E=%r K=%r n=%r, %s)" % (d, back[i], E, K, n, kind), bucket="masing:stress_of_strain")
-    dsig, slow = _stress_call(ro.delta_stress, de, kind, kw, E, K, n, rtol, tol, ctx, scale=0.5)
+    dsig, slow = _stress_call(ro.delta_stress, de, kind, kw, E, K, n, rtol, tol, ctx, scale=0.5, lists=False)
     if dsig is not None:
-        rt = _apply(ro.delta_strain, dsig, kind) if all(math.isfinite(x) for x in dsig) else [float("nan")] * len(dsig)
+        rt = _apply(ro.delta_strain, dsig, kind, lists=False) if all(math.isfinite(x) for x in dsig) else [float("nan")] * len(dsig)
         for i, d in enumerate(de):
             half = ref_stress(E, K, n, d / 2.0)
             t = 2 * (tol + rtol * abs(half))
@@ -385,7 +422,8 @@ def ro_masing(case, ctx):
     # ---- lower hysteresis branch
     smax = case["max_stress"]
     top = float(ro.strain(smax))
-    pts = [smax * f for f in case["frac"]] + [smax, -smax]
+    whole = kind in INT_KINDS
+    pts = [int(smax * f) if whole else smax * f for f in case["frac"]] + [smax, -smax]
     low = _apply(lambda x: ro.lower_hysteresis(x, smax), pts, kind)
     for i, x in enumerate(pts):
         want = ref_strain(E, K, n, smax) - 2.0 * ref_strain(E, K, n, (smax - x) / 2.0)
@@ -397,9 +435,9 @@ def ro_masing(case, ctx):
     if not _close(low[-1], -top, RT_CLOSED * 3 * abs(top)):
         raise Violation("lower_hysteresis(-max, max) = %r, the loop should close at -strain(max) = %r" % (low[-1], -top), bucket="masing:closure")
     if case["above"] is not None and smax > 0:
-        bad = smax * (1.0 + case["above"])
+        bad = int(smax * (1.0 + case["above"])) + 1 if whole else smax * (1.0 + case["above"])
         try:
-            _apply(lambda x: ro.lower_hysteresis(x, smax), [0.0, bad], kind)
+            _apply(lambda x: ro.lower_hysteresis(x, smax), [0, bad] if whole else [0.0, bad], kind)
         except ValueError:
             ctx.tolerate("ValueError for stress > max_stress (documented)")
         else:
@@ -426,21 +464,22 @@ def _cond(nu):
 def _hooke_call(f, states, kind):
     """states: list of N component tuples; returns list of N result tuples."""
     ncomp = len(states[0])
-    if kind == "scalar":
+    kind = _eff_kind([x for s in states for x in s], kind)
+    if kind in SCALAR_CONV:
         out = []
         for s in states:
-            r = f(*[float(x) for x in s])
+            r = f(*[SCALAR_CONV[kind](x) for x in s])
             r = r if isinstance(r, tuple) else (r,)
             if any(np.ndim(x) != 0 for x in r):
                 raise Violation("%s(scalars) returned non-scalar components" % f.__qualname__, bucket="hooke:shape")
             out.append([float(x) for x in r])
         return out
     cols = [[s[j] for s in states] for j in range(ncomp)]
-    if kind == "list":
-        args = cols
+    if kind in ("list", "intlist"):
+        args = [[int(x) for x in c] for c in cols] if kind == "intlist" else cols
         shape = (len(states),)
     else:
-        args = [np.array(c, dtype=float) for c in cols]
+        args = [np.array([int(x) for x in c], dtype=np.int64) if kind == "intarr" else np.array(c, dtype=float) for c in cols]
         if kind == "arr2":
             args = [a.reshape(-1, 2) if len(states) % 2 == 0 else a.reshape(1, -1) for a in args]
         shape = args[0].shape
@@ -466,9 +505,14 @@ def _comp():
 def _hooke_cases(draw, tier):
     E = draw(st.one_of(st.sampled_from([2.1e5, 7.0e4, 1.0, 2.0e5]), st.floats(3.0, 6.0).map(lambda x: 10.0 ** x)))
     nstates = draw(st.integers(1, 3 if tier == "quick" else 8))
-    mag = 10.0 ** draw(st.integers(-6, 3))
-    states = [[mag * draw(_comp()) for _ in range(6)] for _ in range(nstates)]
-    return {"E": E, "nu": draw(_nu()), "states": states, "kind": draw(st.sampled_from(["scalar", "arr1", "arr1", "arr2", "list"]))}
+    kind = draw(st.sampled_from(["scalar", "arr1", "arr1", "arr2", "list"] + INT_KINDS))
+    if kind in INT_KINDS:
+        whole = st.one_of(st.integers(-1000, 1000), st.sampled_from([0, 0, 1, -1, 100]))
+        states = [[draw(whole) for _ in range(6)] for _ in range(nstates)]
+    else:
+        mag = 10.0 ** draw(st.integers(-6, 3))
+        states = [[mag * draw(_comp()) for _ in range(6)] for _ in range(nstates)]
+    return {"E": E, "nu": draw(_nu()), "states": states, "kind": kind}
 
 
 def _hooke_nontrivial(ctx, nu, states, idx):
@@ -611,11 +655,26 @@ def _true_cases(draw, tier):
             "kind": draw(st.sampled_from(KINDS))}
 
 
+@st.composite
+def _true_cases_any(draw, tier):
+    case = draw(_true_cases(tier))
+    if draw(st.integers(0, 3)) == 0:       # whole-number engineering values in integer typed containers (no lists: never accepted)
+        n = len(case["e"])
+        case["kind"] = draw(st.sampled_from(["int", "npint", "intarr"]))
+        case["e"] = draw(st.lists(st.integers(0, 3), min_size=n, max_size=n))
+        case["s"] = draw(st.lists(st.integers(-10000, 10000), min_size=n, max_size=n))
+    return case
+
+
 def _apply2(f, a, b, kind):
-    if kind in ("scalar", "np0"):
-        conv = float if kind == "scalar" else np.float64
+    kind = _eff_kind(list(a) + list(b), kind, lists=False)
+    if kind in SCALAR_CONV:
+        conv = SCALAR_CONV[kind]
         return [float(f(conv(x), conv(y))) for x, y in zip(a, b)]
-    xa, xb = np.array(a, dtype=float), np.array(b, dtype=float)
+    if kind == "intarr":
+        xa, xb = np.array([int(v) for v in a], dtype=np.int64), np.array([int(v) for v in b], dtype=np.int64)
+    else:
+        xa, xb = np.array(a, dtype=float), np.array(b, dtype=float)
     if kind == "arr2":
         sh = (-1, 2) if len(a) % 2 == 0 else (1, -1)
         xa, xb = xa.reshape(sh), xb.reshape(sh)
@@ -625,7 +684,7 @@ def _apply2(f, a, b, kind):
     return [float(x) for x in r.ravel()]
 
 
-@subcheck("C16", "true_conversions", strategy=_true_cases, quick=3000, thorough=100000,
+@subcheck("C16", "true_conversions", strategy=_true_cases_any, quick=3000, thorough=100000,
           doc="exp(true_strain(e)) - 1 == e, true_stress(s, e) / (1 + e) == s, true_stress == s exp(true_strain); "
               "fracture values: 1 - exp(-true_fracture_strain(Z)) == Z, true_fracture_stress A (1 - Z) == F")
 def true_conversions(case, ctx):
